@@ -90,7 +90,8 @@ CHECKS = {
             ASSUME + "Statistical agreement and tail coverage of the rejection sampler are bounded checks.", TECH + " + bounded run-time contracts", "DESIGN.md 3 C16"),
     "C17": ("other",
             "Deductive: calculate_design_conditions against the contract of intersection (closed polygon, probe line spans the polygon, omitted iff no crossing, requested abscissa, top ordinate, swap_axis). "
-            "intersection itself (strided assembly): bounded run-time contracts.",
+            "The prefilter of intersection (_rectangle_intersection_ / _rect_inter_inner, symbolic numbers of segments): exactly the segment pairs with overlapping closed bounding boxes, each once; lemma: a crossing pair is never discarded. "
+            "The linear-solve half of intersection (strided assembly, numpy.linalg.solve, inf columns): bounded run-time contracts.",
             ASSUME + "intersection returns the crossing points (bounded check on random polylines).", TECH + " + bounded run-time contracts", "DESIGN.md 3 C17"),
     "C18": ("proof",
             "One raises-obligation per malformation class x position for 1-4 dimensional descriptions (+pairs): model construction, ConditionalDistribution, fit descriptions, data dimension, HDC grid, slicer options / references, "
